@@ -958,7 +958,9 @@ where
         let inner = Arc::new(RwLock::new(Some(MirroredHashMapInner {
             hm: self.take_initial().unwrap_or_default(),
             complete: self.is_complete(),
-            done: self.is_done(),
+            // An incremental subscription made after done still has to deliver
+            // the initial value; done is then set by the final done event.
+            done: self.is_done() && self.is_complete(),
             error: None,
             max_size,
         })));
